@@ -3,6 +3,8 @@
 package scen
 
 import (
+	"fmt"
+
 	"github.com/openfga/openfga/internal/verifharness/lib/rec"
 )
 
@@ -102,8 +104,72 @@ func GenerateC05(r *rec.Rand, o GenOpts) *Scenario {
 	}
 	g.dropUnusedConds()
 	g.tuples()
+	g.backbone()
 	g.reqctx()
 	return g.s
+}
+
+// backbone makes sure that the equal-depth paths of the shapes above are populated with DIFFERENT
+// objects for the same subject: user:a and user:b are members of group:1, group:1#member is a
+// member of team:1, and every relation of doc that admits team:1#member or (as a tupleset) team:1
+// links its own document to it.  Conditioned restrictions get a context that satisfies them.
+func (g *gen) backbone() {
+	put := func(t Tuple) {
+		if t.Cond != "" {
+			t.Ctx = map[string]any{"x": 1}
+		}
+		for i := range g.s.Tuples {
+			if g.s.Tuples[i].Key() == t.Key() {
+				g.s.Tuples[i] = t
+				return
+			}
+		}
+		g.s.Tuples = append(g.s.Tuples, t)
+	}
+	restrCond := func(typ, rel string, want Restr) (string, bool) {
+		rd := g.s.Rel(typ, rel)
+		if rd == nil {
+			return "", false
+		}
+		for _, x := range rd.Restr {
+			if x.Type == want.Type && x.Kind == want.Kind && x.Rel == want.Rel {
+				return x.Cond, true
+			}
+		}
+		return "", false
+	}
+	if c, ok := restrCond("group", "member", RObj("user")); ok {
+		put(Tuple{Obj: "group:1", Rel: "member", User: "user:a", Cond: c})
+		put(Tuple{Obj: "group:1", Rel: "member", User: "user:b", Cond: c})
+	}
+	if c, ok := restrCond("team", "member", RSet("group", "member")); ok {
+		put(Tuple{Obj: "team:1", Rel: "member", User: "group:1#member", Cond: c})
+	}
+	doc := g.s.Type("doc")
+	if doc == nil {
+		return
+	}
+	k := 0
+	for _, rd := range doc.Rels {
+		if !rd.RW.HasThis() || rd.Name == "blocked" || rd.Name == "allowed" {
+			continue
+		}
+		for _, x := range rd.Restr {
+			var user string
+			switch {
+			case x.Type == "team" && x.Kind == KSet && x.Rel == "member":
+				user = "team:1#member"
+			case x.Type == "team" && x.Kind == KObj:
+				user = "team:1"
+			default:
+				continue
+			}
+			k++
+			put(Tuple{Obj: fmt.Sprintf("doc:%d", (k-1)%3+1), Rel: rd.Name, User: user, Cond: x.Cond})
+			break
+		}
+	}
+	rec.Shuffle(g.r, g.s.Tuples)
 }
 
 func allowedRel(rw *Rewrite) RelDef {
